@@ -277,6 +277,43 @@ def _work(task):
     return n_exec, recs
 
 
+def big_literal_cases(prop, tier, seed):
+    """Script bodies far larger than one read (outside TLC's corpus): served as a literal, unsegmented and under a few
+    schedules around the read size; compared with the stored body (C17) and with the unsegmented run (C05)."""
+    rng = random.Random(seed + 99)
+    recs, n = [], 0
+    lines = []
+    for k in range(260):
+        lines.append(rng.choice(["", "# comment line %d" % k, "OK \"looks like a status\"", "NO", "{12}", "keep;",
+                                 'if header :contains "subject" "x%d" { fileinto "f"; }' % k, "BYE bye", "é☃ %d" % k]))
+    for body in ("\r\n".join(lines) + "\r\n", "\n".join(lines[:200]), "x" * 9000 + "\r\n\r\ntail\r\n"):
+        raw = body.encode("utf-8")
+        wire = b"{%d}\r\n" % len(raw) + raw + b"\r\nOK \"done\"\r\n"
+        base = run_case(wire, "getscript", None, 0)
+        n += 1
+        want = C.norm_body(body)
+        if base["res"][0] != "ret" or not isinstance(base["res"][1], str) or C.norm_body(base["res"][1]) != want or not clean_after(base):
+            if prop == "C17":
+                recs.append({"reply": "big literal %d octets" % len(raw), "wire": repr(wire[:60]), "op": "getscript", "schedule": "unsegmented",
+                             "obs": repr(base)[:300], "expl": None, "what": "result does not mirror the reply"})
+        scheds = [[100], [4096], [4097, 1], [len(wire) - 5], [10, 4096, 4096], [3000, 3000], [1] * 3 + [5000]]
+        scheds += [random_split(len(wire), rng) for _ in range(3 if tier == "quick" else 25)]
+        for plan in scheds:
+            for cap in (0, 4096, 1000):
+                o2 = run_case(wire, "getscript", (lambda b, p=plan, w=wire: (p if b == w else [len(b)])), cap)
+                n += 1
+                same = all(o2.get(k) == base.get(k) for k in ("res", "errcode", "errmsg", "s1", "s2"))
+                if not same and prop == "C05":
+                    recs.append({"reply": "big literal %d octets" % len(raw), "wire": repr(wire[:60]), "op": "getscript",
+                                 "schedule": [plan[:6], cap], "obs": repr(o2)[:300], "base": repr(base)[:200], "expl": None,
+                                 "what": "result depends on the segmentation"})
+                if prop == "C17" and (o2["res"][0] != "ret" or not isinstance(o2["res"][1], str) or C.norm_body(o2["res"][1]) != want):
+                    recs.append({"reply": "big literal %d octets" % len(raw), "wire": repr(wire[:60]), "op": "getscript",
+                                 "schedule": [plan[:6], cap], "obs": repr(o2)[:300], "expl": None,
+                                 "what": "result does not mirror the reply (segmented)"})
+    return n, recs
+
+
 def run(prop, tier, seed):
     t0 = time.time()
     devs = findings.open_devs("MSClient")
@@ -312,6 +349,10 @@ def run(prop, tier, seed):
         for n, rs in pool.imap_unordered(_work, tasks, chunksize=4):
             n_exec += n
             recs.extend(rs)
+    if prop in ("C05", "C17"):
+        nb, rb = big_literal_cases(prop, tier, seed)
+        n_exec += nb
+        recs.extend(rb)
     known, viols = {}, []
     for r in recs:
         ex = r["expl"]
